@@ -10,6 +10,8 @@ package services
 
 import (
 	"context"
+
+	convtypes "github.com/jcmoraisjr/haproxy-ingress/pkg/converters/types"
 )
 
 var (
@@ -25,11 +27,21 @@ func simAcmeNote(op string, item any) {
 	}
 }
 
+// SimBatchDeliveredHook gets the change descriptions of every batch handed to ReconcileIngress (C14, L2).
+var SimBatchDeliveredHook func(objects []string)
+
+func simBatchDelivered(changed *convtypes.ChangedObjects) {
+	if SimBatchDeliveredHook != nil && changed != nil {
+		SimBatchDeliveredHook(append([]string{}, changed.Objects...))
+	}
+}
+
 // SimReset clears the simulation state of the package (one run per call).
 func SimReset() {
 	simLeader = nil
 	simCancel = nil
 	SimAcmeHook = nil
+	SimBatchDeliveredHook = nil
 }
 
 // SimSetLeader makes this controller the leader, or takes leadership away.
